@@ -331,12 +331,57 @@ class RealRelayProbe(Relay):
         self.kind = kind
         self.active = 0
         self.plans = {}
+        self.down = None
+        if kind in ('pipe', 'pipe-one'):
+            self._init_pipe(kind)
+            return
         lmtp = kind == 'lmtp'
         self.down = Downstream(self._script, lmtp=lmtp, pipelining=lab.rnd.random() < 0.5)
         cls = StaticLmtpRelay if lmtp else StaticSmtpRelay
         self.inner = cls('next-hop.test', 25, socket_creator=self.down.creator, ehlo_as='verif.test',
                          connect_timeout=5.0, command_timeout=5.0, data_timeout=5.0,
                          idle_timeout=lab.cfg.get('relay_idle'), pool_size=lab.cfg.get('relay_pool_size'))
+
+    # ---- pipe relay: a real delivery program (sh) whose exit status / output is planned per recipient
+    PIPE_SCRIPT = (
+        'o=$(cat "$2/plan-$1" 2>/dev/null)\n'
+        'case "$o" in\n'
+        ' temp) echo "4.2.0 mailbox busy"; exit 75;;\n'
+        ' temperr) echo "no status here" >&2; exit 1;;\n'
+        ' perm) echo "5.1.1 no such user"; exit 67;;\n'
+        ' permerr) echo "5.2.2 mailbox full" >&2; exit 1;;\n'
+        ' sig) kill -9 $$;;\n'
+        ' slow) sleep 0.6; exit 75;;\n'
+        ' *) cat >/dev/null; echo "$1" >> "$2/ledger"; exit 0;;\n'
+        'esac\n')
+
+    def _init_pipe(self, kind):
+        from slimta.relay.pipe import PipeRelay
+        lab = self.lab
+        self.pdir = os.path.join(lab.scratch, 'pipe%d' % lab.rnd.randrange(1 << 30))
+        os.makedirs(self.pdir)
+        lab._cleanup.append(lambda d=self.pdir: shutil.rmtree(d, ignore_errors=True))
+        args = ['/bin/sh', '-c', self.PIPE_SCRIPT, 'deliver', '{recipient}', self.pdir]
+        if kind == 'pipe-one':
+            class PipeOne(PipeRelay):
+                per_recipient = False
+            self.inner = PipeOne(args, timeout=0.25)
+        else:
+            self.inner = PipeRelay(args, timeout=0.25)
+
+    def _before(self, envelope, rc):
+        if self.kind not in ('pipe', 'pipe-one'):
+            return
+        lab = self.lab
+        prof = lab.cfg.get('pipe_profile', ['ok', 'ok', 'ok', 'temp', 'temp', 'temperr', 'perm', 'permerr', 'sig'])
+        slow_p = lab.cfg.get('pipe_slow_p', 0.04)
+        for r in rc:
+            o = lab.rnd.choice(['ok', 'perm'] if lab.draining else prof)
+            if not lab.draining and lab.rnd.random() < slow_p:
+                o = 'slow'
+            with open(os.path.join(self.pdir, 'plan-' + r), 'w') as f:
+                f.write(o)
+            lab.log('pipe_plan', marker(envelope), r, o)
 
     def _script(self, ctx, stage):
         key = (ctx['conn'], ctx['txn'])
@@ -376,6 +421,7 @@ class RealRelayProbe(Relay):
         self.active += 1
         try:
             try:
+                self._before(envelope, rc)
                 out = self.inner.attempt(envelope, attempts)
             except (TransientRelayError, PermanentRelayError) as ex:
                 kind = 'perm' if isinstance(ex, PermanentRelayError) else 'temp'
@@ -385,7 +431,8 @@ class RealRelayProbe(Relay):
                 lab.log('attempt_end', m, rc, 'exc', {r: ('X', None) for r in rc}, attempts)
                 raise
             if isinstance(out, dict):
-                d = {r: (cls_of(out.get(r)), reply_of(out.get(r))) for r in rc}
+                # a recipient the relay's mapping does not mention has not been reported at all ('A')
+                d = {r: ((cls_of(out[r]), reply_of(out[r])) if r in out else ('A', None)) for r in rc}
                 lab.log('attempt_end', m, rc, 'map', d, attempts)
             else:
                 lab.log('attempt_end', m, rc, 'ok', {r: (cls_of(out), reply_of(out)) for r in rc}, attempts)
@@ -677,9 +724,9 @@ class Lab(object):
                 self.bounce_q.kill()
         except Exception:
             pass
-        if isinstance(getattr(self, 'relay', None), RealRelayProbe):
+        if isinstance(getattr(self, 'relay', None), RealRelayProbe) and self.relay.down is not None:
             self.relay.down.kill()
-            for client in list(self.relay.inner.pool):   # (RelayPool.kill() itself mutates the set it iterates)
+            for client in list(getattr(self.relay.inner, 'pool', ())):   # (RelayPool.kill() itself mutates the set it iterates)
                 try:
                     client.kill(block=False)
                 except Exception:
